@@ -13,8 +13,9 @@
    * uploads in flight carry a checkpoint of LOG not beyond the pending one, a correct overlay and
      a correct tile cache, and have not run ahead of nextEntry;
    * witness-cosigned tickets carry checkpoints of LOG not beyond the pending one;
-   * every signed mirror checkpoint was servable when signed (srec_ok) and the recorded sizes are
-     monotone and bounded by the mirror register. *)
+   * every signed mirror checkpoint was servable when signed (srec_ok), its tree is still served
+     (each tile or the full tile that extends it: serves_ext), and the recorded sizes are monotone
+     and bounded by the mirror register. *)
 From SL Require Import Merkle.Tiles Merkle.Proofs Merkle.Sound Mirror.Model Mirror.Arith Mirror.Trees
   Mirror.Inv Mirror.Reader Mirror.Writer.
 From Coq Require Import ZifyN ZifyNat ZifyBool Lia.
@@ -94,6 +95,13 @@ Definition serves (st : store) (n : N) : Prop :=
   (forall t, In t (tiles_needed n) -> pres st (KHash t)) /\
   (forall j, j * 256 < n -> pres st (KData j (N.min 256 (n - j * 256)))).
 
+(* ... in the weaker, lasting sense of c2sp.org/tlog-tiles clients: each tile or, for a partial
+   tile, the full tile that extends it *)
+Definition serves_ext (st : store) (n : N) : Prop :=
+  (forall t, In t (tiles_needed n) ->
+     pres st (KHash t) \/ pres st (KHash (mkT (tc_L t) (tc_N t) 256))) /\
+  (forall j, j * 256 < n -> pres st (KData j (N.min 256 (n - j * 256))) \/ pres st (KData j 256)).
+
 Definition srec_ok (r : srec) : Prop :=
   ck_ok (sr_ck r) /\ store_ok (sr_store r) /\ serves (sr_store r) (ck_size (sr_ck r)) /\
   ck_size (sr_ck r) <= osize (sr_pending r) /\ ock_ok (sr_pending r).
@@ -116,7 +124,8 @@ Record MInv (w : world) : Prop := mkInv {
              ck_ok (t_ck t) /\ ck_size (t_ck t) <= osize (w_plock w);
   i_signed : Forall srec_ok (w_signed w);
   i_mono : mono (rec_sizes (w_signed w)) /\
-           forall x, In x (rec_sizes (w_signed w)) -> x <= osize (w_mlock w)
+           forall x, In x (rec_sizes (w_signed w)) -> x <= osize (w_mlock w);
+  i_persist : forall r, In r (w_signed w) -> serves_ext (w_store w) (ck_size (sr_ck r))
 }.
 
 (* ---------- small facts ---------- *)
@@ -144,6 +153,16 @@ Proof.
   pose proof (p256_pos (S L)).
   assert (mN / p256 (S L) <= mN' / p256 (S L)) by (apply N.div_le_mono; lia). lia.
 Qed.
+
+Lemma serves_ext_grows st st' n : grows st st' -> serves_ext st n -> serves_ext st' n.
+Proof.
+  intros G [A B]. split.
+  - intros t Ht. destruct (A t Ht) as [X|X]; [left|right]; now apply G.
+  - intros j Hj. destruct (B j Hj) as [X|X]; [left|right]; now apply G.
+Qed.
+
+Lemma serves_serves_ext st n : serves st n -> serves_ext st n.
+Proof. intros [A B]. split; [intros t Ht; left; now apply A|intros j Hj; left; now apply B]. Qed.
 
 (* growing stores that do not touch the checkpoint object *)
 Lemma IS_grows st st' hi mN nx : IS st hi mN nx -> store_ok st' -> dbh st' -> grows st st' ->
